@@ -39,7 +39,7 @@ ASSUMPTIONS = ['only strings are fed (the pipeline feeds internal_hash hex strin
                '(relative std of the linear-counting estimate is <= 0.3 % in this range, so 2 % is > 6 sigma)',
                'value families are injective by construction, so the model distinct count is the number of fresh indices']
 
-FAMILIES = ['hex', 'v', 'uni', 'dec8', 'hexseq']
+FAMILIES = ['hex', 'v', 'uni', 'dec8', 'hexseq', 'sha64']
 _M32 = 0xFFFFFFFF
 CHUNK = 1 << 16
 SHUFFLE_MAX_ADDS = 3 * B      # shuffle segments re-feed everything: skipped (and counted) beyond this many adds
@@ -61,6 +61,9 @@ def make_values(family, salt, idx):
         return ['%08d' % (v % 100_000_000) for v in (idx.astype(np.uint64) + np.uint64(salt % 1000)).tolist()]
     if family == 'hexseq':     # consecutive ids written as 8 hex digits (look like digests, are not uniformly distributed)
         return ['%08x' % (v & _M32) for v in x.tolist()]
+    if family == 'sha64':      # 64-character digests (SHA-256 hex): long values, > 8 MiB of text below the warm-up capacity
+        import hashlib
+        return [hashlib.sha256(b'%d' % v).hexdigest() for v in x.tolist()]
     if family == 'uni':
         return ['ключ%d値é' % v for v in x.tolist()]
     raise Inconclusive()
